@@ -755,6 +755,17 @@ func runRetry(e *Env) {
 				var attempts int
 				if pl.batch {
 					b := sess.NewBatch(gocql.UnloggedBatch)
+					if (ti+oi)%2 == 0 {
+						// a Batch value that was filled and asked about before: what it says now
+						// must be about its present entries
+						for i := 0; i < pl.nEntries; i++ {
+							b.Query(fmt.Sprintf("OLD%d '%s'", i, token))
+							b.Entries[i].Idempotent = !pl.idempotent
+						}
+						_ = b.IsIdempotent()
+						b.Entries = b.Entries[:0]
+						k.Probe("batch-refilled")
+					}
 					for i := 0; i < pl.nEntries; i++ {
 						b.Query(fmt.Sprintf("ECHO%d '%s'", i, token))
 					}
